@@ -141,12 +141,88 @@ def run_gffblocks(case, tmp):
     return out
 
 
+def run_gfffiles(case, tmp):
+    """several GFF files behind one wildcard path; returns [order the loader visits them, per lines_per_block the records + queries]"""
+    import pathlib
+
+    from cogent3.core import annotation_db as adb
+
+    d = os.path.join(tmp, "files")
+    os.mkdir(d)
+    for k, text in enumerate(case["texts"]):
+        with open(os.path.join(d, f"part{k}.gff"), "w") as f:
+            f.write(text)
+    pattern = os.path.join(d, "part*.gff")
+    pp = pathlib.Path(pattern)
+    order = [int(x.name[4:-4]) for x in pp.parent.glob(pp.name)]
+    out = []
+    for lpb in case["lpbs"]:
+        STAGE[0] = f"load-files:lines_per_block={lpb}"
+        db = adb.load_annotations(path=pattern) if lpb == 500000 else adb.load_annotations(path=pattern, lines_per_block=lpb)
+        recs = sorted(([d_["name"], d_["seqid"], d_["biotype"], d_["strand"], d_["attributes"],
+                        [[int(a), int(b)] for a, b in d_["spans"].tolist()], int(d_["start"]), int(d_["stop"])]
+                       for d_ in db.get_records_matching()), key=repr)
+        qres = []
+        for qs, qe, partial in case["queries"]:
+            qres.append(sorted(([d_["name"], [[int(a), int(b)] for a, b in d_["spans"]]]
+                                for d_ in db.get_features_matching(start=qs, stop=qe, allow_partial=bool(partial))), key=repr))
+        out.append([recs, qres])
+    return [order, out]
+
+
+def run_gfflines(case, tmp):
+    """each line through the real parser exactly as _db_from_gff calls it, then the naming step"""
+    from cogent3.core.annotation_db import _leave_attributes
+    from cogent3.parse.gff import gff_parser, merged_gff_records
+
+    out = []
+    for line in case["lines"]:
+        try:
+            recs = list(gff_parser([line], attribute_parser=_leave_attributes, gff3=True))
+            if not recs:
+                out.append(None)
+                continue
+            data, nfake = merged_gff_records(recs, 0)
+            (name, r), = data.items()
+            out.append([None if nfake == 1 else name, r.parent_id, r.seqid, r.biotype, r.strand, r.attrs,
+                        [int(r.spans[0][0]), int(r.spans[0][1])]])
+        except Exception as e:  # noqa: BLE001
+            out.append(jsonable(Exc(exc_code(e))))
+    return out
+
+
+def run_gfffamily(case, tmp):
+    """children / parents of each queried name on a db loaded from GFF text"""
+    from cogent3.core import annotation_db as adb
+
+    p = os.path.join(tmp, "family.gff")
+    with open(p, "w") as f:
+        f.write(case["text"])
+    db = adb.load_annotations(path=p, lines_per_block=case["lpb"])
+
+    def obs(it):
+        return sorted(([d["name"], d["seqid"], d["biotype"], d["strand"], [[int(a), int(b)] for a, b in d["spans"]]] for d in it), key=repr)
+
+    out = []
+    for q in case["names"]:
+        STAGE[0] = "children/parent"
+        out.append([obs(db.get_feature_children(name=q)), obs(db.get_feature_children(name=q, biotype="CDS")),
+                    obs(db.get_feature_parent(name=q))])
+    return out
+
+
 def run_case(case, tmp):
     from cogent3.core import annotation_db as adb
 
     kind = case["kind"]
+    if kind == "gfffamily":
+        return run_gfffamily(case, tmp)
+    if kind == "gfflines":
+        return run_gfflines(case, tmp)
     if kind == "gffblocks":
         return run_gffblocks(case, tmp)
+    if kind == "gfffiles":
+        return run_gfffiles(case, tmp)
     db = adb.BasicAnnotationDb() if kind == "basic" else None
     n = 0
     for op in case["ops"]:
